@@ -422,7 +422,7 @@ pub fn history_model(idx: u64) -> (Model, Vec<usize>) {
             0 => m.spaces.push(space(&format!("sp{n}"), if k % 3 == 2 { SpaceType::UNINHABITED } else { SpaceType::CONDITIONED }, k % 4 != 3, 3.0)),
             1 => m.walls.push(wall(&format!("w{n}"), BoundaryType::EXTERIOR, last_wc.unwrap_or_default(), last_space.unwrap_or_default(), None, geom(90.0, 45.0 * k as f32, Some([k as f32, 0.0, 0.0]), rect(3.0, 3.0)))),
             2 => m.walls.push(wall(&format!("w{n}"), BoundaryType::EXTERIOR, uid("missing-cons"), uid("missing-space"), None, geom(0.0, 0.0, None, rect(3.0, 3.0)))),
-            3 => m.walls.push(wall(&format!("w{n}"), BoundaryType::GROUND, last_wc.unwrap_or_default(), last_space.unwrap_or_default(), None, geom(180.0, 0.0, Some([0.0, 4.0, 0.0]), rect(4.0, 4.0)))),
+            3 => m.walls.push(wall(&format!("w{n}"), BoundaryType::GROUND, last_wc.unwrap_or_default(), last_space.unwrap_or_default(), None, geom(180.0, 0.0, Some([0.0, 4.0, 0.0]), if k % 2 == 1 { rect(1.0, 1.2) } else { rect(4.0, 4.0) }))),
             4 => {
                 let lw = m.walls.last().map(|w| w.id).unwrap_or_default();
                 let lc = m.cons.wincons.last().map(|w| w.id).unwrap_or_default();
@@ -597,7 +597,7 @@ pub fn run(ctx: &Ctx) -> i32 {
     ctx.outcome(&"noload");
     ctx.finish(
         "fault_enumeration",
-        &format!("(a) every single JSON-tree edit {{delete key, delete array item, empty/duplicate-last/truncate array, id -> nil / next other id of the document / fresh id, number -> 0, number -> -number, number -> -1e-6, name -> 60 two-byte letters (with and without a leading ASCII letter)}} of the bases (quick: generated tiny + micro models and cubo.json; thorough: + the other 6 shipped models); (b) every ordered pair of such edits on the micro model (thorough: also on the tiny model); (c) 24 box models behind a brise-soleil of 29/31/40/60 identical slats whose centres coincide at 4.05, 0.1, 0.7, 1e-3, 123456.7, -2.3; every editor history of length <= {} from the empty model, and of one step less from a model that already holds a small library of constructions, over {} operations (add space / wall / dangling wall / ground floor / window / wallcons / material / wincons / glass+frame / bridge / shade / loads+schedules / n50+ventilation / interior wall); each resulting document that loads as a Model is run through energy_indicators() in a supervised worker process (20 s watchdog, 4 GiB, panic-site capture, post-panic sentinel on cubo.json); closed models with positive sizes must report only finite numbers and JSON that loads back; non-trivial = document loads as a model", maxlen, NOPS),
+        &format!("(a) every single JSON-tree edit {{delete key, delete array item, empty/duplicate-last/truncate array, id -> nil / next other id of the document / fresh id, number -> 0, number -> -number, number -> -1e-6, name -> 60 two-byte letters (with and without a leading ASCII letter)}} of the bases (quick: generated tiny + micro models and cubo.json; thorough: + the other 6 shipped models); (b) every ordered pair of such edits on the micro model (thorough: also on the tiny model); (c) 24 box models behind a brise-soleil of 29/31/40/60 identical slats whose centres coincide at 4.05, 0.1, 0.7, 1e-3, 123456.7, -2.3; every editor history of length <= {} from the empty model, and of one step less from a model that already holds a small library of constructions, over {} operations (add space / wall / dangling wall / ground floor of 4 x 4 m or 1 x 1.2 m / window / wallcons / material / wincons / glass+frame / bridge / shade / loads+schedules / n50+ventilation / interior wall); each resulting document that loads as a Model is run through energy_indicators() in a supervised worker process (20 s watchdog, 4 GiB, panic-site capture, post-panic sentinel on cubo.json); closed models with positive sizes must report only finite numbers and JSON that loads back; non-trivial = document loads as a model", maxlen, NOPS),
         true,
         json!({}),
     )
